@@ -75,6 +75,16 @@ CLAIMED = {
         note="Reference shares only ws2d (C01) with the implementation; composition of the 10 reweighting passes in exact arithmetic is "
              "outside (per-pass weights only); candidates replayed with shape-guided witnesses. Trusted: pysym, z3, xarray contracts.",
         technique="differential symbolic execution against reference models + z3 UF/LIRA", ref="5 C03"),
+    "C04": dict(
+        text="Bounded symbolic verification: ws2doptv / ws2doptvp executed next to a reference V-curve built from the statement; "
+             "z3 decides by order reasoning over opaque V values that the reported lambda is 10**midpoint of a V-minimising "
+             "interval (warm- or cold-started iterates accepted for the asymmetric kernel) and by congruence that the band is the "
+             "fixed smoother at that lambda; symbolic grids of 3..4(5) entries, every gap pattern with >= 2 valid, n = 5/6. "
+             "Grid choice of ws2doptvplc decided for EVERY real lc (and NaN) in regime 2 (ite-trees over lc > 0.5 with constant leaves) "
+             "on three series; whitsvc dispatch / naming / float32 sgrid over xarray contracts.",
+        note="log/sqrt/pow10/products uninterpreted and shared with the reference; ties of V free; longer sranges outside. "
+             "Trusted: pysym, z3, contracts.",
+        technique="differential symbolic execution + z3 UF/LRA order reasoning; regime-2 constant-tree evaluation for lc", ref="5 C04"),
 }
 
 NOT_APPLICABLE = {
